@@ -2,6 +2,7 @@
    Property theorems only; proofs in RangeProofs.v and WindowProofs.v. *)
 From Coq Require Import List ZArith NArith Bool.
 From Verif Require Import Base Select SelectProofs Range RangeProofs WindowProofs.
+From Verif Require RangeFns RangeFnsProofs.
 Import ListNotations.
 Open Scope Z_scope.
 
@@ -47,3 +48,45 @@ Example C03_example :
       (snd (ms_scan 60 0 30 (ms_reset ss 60) (zgrid 200 30 6)) =
        [[(160, 2); (200, 3)]; [(200, 3)]; [(200, 3); (260, 4)]; [(260, 4)]; [(260, 4)]; []]).
 Proof. split; [simpl; repeat split; reflexivity|vm_compute; reflexivity]. Qed.
+
+(* ---- the kernels (RangeFns.v transcribes execution/function/functions.go and is
+   compared with the real kernels on every run, on primitive floats) ----------- *)
+
+(* max_over_time / min_over_time, for any comparison that behaves like IEEE <
+   (false on NaN, irreflexive, transitive): the result is one of the window's
+   values; it is NaN only if all of them are; otherwise it is a number and no
+   number in the window is greater (for min_over_time: smaller). *)
+Theorem C03_max_over_time :
+  forall (V : Type) (lt : V -> V -> bool) (isnan : V -> bool),
+  (forall a b, isnan b = true -> lt a b = false) ->
+  (forall a, lt a a = false) ->
+  (forall a b c, lt a b = true -> lt b c = true -> lt a c = true) ->
+  forall first rest, RangeFnsProofs.is_max V lt isnan (RangeFns.max_over V lt isnan first rest) (first :: rest).
+Proof. exact RangeFnsProofs.max_over_spec. Qed.
+Print Assumptions C03_max_over_time.
+
+Theorem C03_min_is_max_reversed : forall V lt isnan first rest,
+  RangeFns.min_over V lt isnan first rest = RangeFns.max_over V (fun a b => lt b a) isnan first rest.
+Proof. exact RangeFnsProofs.min_is_max_flipped. Qed.
+Print Assumptions C03_min_is_max_reversed.
+
+(* resets / changes count the adjacent pairs of the window that decrease / differ
+   (two NaN do not differ) *)
+Theorem C03_resets : forall V lt prev rest,
+  RangeFns.resets_from V lt prev rest =
+  length (filter (fun pv : V * V => lt (snd pv) (fst pv)) (RangeFnsProofs.adjacent prev rest)).
+Proof. exact RangeFnsProofs.resets_spec. Qed.
+Print Assumptions C03_resets.
+
+Theorem C03_changes : forall V isnan eqb prev rest,
+  RangeFns.changes_from V isnan eqb prev rest =
+  length (filter (fun pv : V * V => negb (eqb (snd pv) (fst pv)) && negb (isnan (snd pv) && isnan (fst pv)))
+                 (RangeFnsProofs.adjacent prev rest)).
+Proof. exact RangeFnsProofs.changes_spec. Qed.
+Print Assumptions C03_changes.
+
+(* PARTIAL. The arithmetic kernels (Kahan sums, mean, variance, regression,
+   extrapolated rate) are transcribed in RangeFns.v and compared bit for bit
+   with the real ones; that they compute "the reference value" is the statement
+   that the reference uses the same operations in the same order, which is
+   decided by the reference oracle, not proved. *)
